@@ -212,6 +212,30 @@ fn parse3(doc: &str) -> Result<Result<Fields, String>, String> {
   let a = SourceMap::from_json(doc).map(|m| fields_of(&m)).map_err(|e| e.to_string());
   let b = SourceMap::from_slice(doc.as_bytes()).map(|m| fields_of(&m)).map_err(|e| e.to_string());
   let c = SourceMap::from_reader(doc.as_bytes()).map(|m| fields_of(&m)).map_err(|e| e.to_string());
+  // readers that hand the document over in short reads (as pipes and chained readers do) must read the same
+  struct Chunked<'a>(&'a [u8], usize);
+  impl std::io::Read for Chunked<'_> {
+    fn read(&mut self, buf: &mut [u8]) -> std::io::Result<usize> {
+      let n = buf.len().min(self.1).min(self.0.len());
+      buf[..n].copy_from_slice(&self.0[..n]);
+      self.0 = &self.0[n..];
+      Ok(n)
+    }
+  }
+  for step in [1usize, 7, 4096, 65_535] {
+    if step == 1 && doc.len() > 4096 {
+      continue;
+    }
+    let r = SourceMap::from_reader(Chunked(doc.as_bytes(), step)).map(|m| fields_of(&m)).map_err(|e| e.to_string());
+    if r.is_ok() != c.is_ok() || (r.is_ok() && r != c) {
+      return Err(format!(
+        "from_reader over a reader that hands out at most {step} byte(s) per call answers {} for a document of {} bytes, over a slice it answers {}",
+        if r.is_ok() { "Ok" } else { "Err" },
+        doc.len(),
+        if c.is_ok() { "Ok" } else { "Err" }
+      ));
+    }
+  }
   match (&a, &b, &c) {
     (Ok(x), Ok(y), Ok(z)) if x == y && y == z => Ok(a),
     (Err(_), Err(_), Err(_)) => Ok(a),
